@@ -489,12 +489,11 @@ func (p *parser) parseForExpression() ast.Expression {
 	p.nextToken()
 	expression.Iterable = p.parseExpression(LOWEST)
 
-	if ce, ok := expression.Iterable.(*ast.CallExpression); ok {
-		if ce.Block != nil {
-			expression.Block = ce.Block
-			ce.Block = nil
-			return expression
-		}
+	// "for (x) in f() {": the call took the loop body for a helper block. In a
+	// member expression, x.a().b() or xs[i].b(), it is the last call that did.
+	if block := takeTrailingBlock(expression.Iterable); block != nil {
+		expression.Block = block
+		return expression
 	}
 
 	if !p.expectPeek(token.LBRACE) {
@@ -506,6 +505,29 @@ func (p *parser) parseForExpression() ast.Expression {
 	// the current token stays on the closing brace, as after an if or a
 	// function block: the caller advances past it
 	return expression
+}
+
+// takeTrailingBlock detaches the block that the last call of a member
+// expression picked up, if any.
+func takeTrailingBlock(e ast.Expression) *ast.BlockStatement {
+	switch t := e.(type) {
+	case *ast.CallExpression:
+		if t.ChainCallee != nil {
+			if b := takeTrailingBlock(t.ChainCallee); b != nil {
+				return b
+			}
+		}
+		if t.Block != nil {
+			b := t.Block
+			t.Block = nil
+			return b
+		}
+	case *ast.IndexExpression:
+		if t.Callee != nil {
+			return takeTrailingBlock(t.Callee)
+		}
+	}
+	return nil
 }
 
 func (p *parser) parseIfExpression() ast.Expression {
